@@ -895,7 +895,8 @@ func ObserveNoHooks(a *Acc, m *Materialised, seed int64) {
 			a.noteDiff(&a.noHooksDiff, fmt.Sprintf("client-only dry run with DisableHooks: %d hooks instead of %d", len(o.HookList), len(first.HookList)), got, want)
 		}
 	}
-	if m.Case.uses("LOOK") || m.Case.uses("DNS") && m.Case.DNS {
+	// (the route through the simulated API server costs a multiple of a client-only render: every fourth such case)
+	if m.Case.uses("LOOK") || m.Case.uses("DNS") && m.Case.DNS || r.Intn(4) != 0 {
 		return
 	}
 	if ch, err := m.Load("files", r); err == nil {
